@@ -163,7 +163,8 @@ static Monitor* g_mon = nullptr;
 class mon_solver : public solver {
 public:
     using solver::solver;
-    void run_iteration() noexcept(false) override { g_mon->pre(); solver::run_iteration(); g_mon->post(); }
+    // a run whose monitor has found a violation ends there (a frozen clock would otherwise keep run() looping for ever)
+    void run_iteration() noexcept(false) override { g_mon->pre(); solver::run_iteration(); g_mon->post(); if (!g_mon->viols.empty()) throw std::runtime_error("run stopped by the monitor at its first violation"); }
     unsigned it() const { return iteration_; }
     unsigned fn() const { return file_number_; }
     double t() const { return time_integrator_ptr_->get_simulation_time(); }
@@ -259,7 +260,7 @@ static Sweep make_sweep(Rng& g, int hist, const Args& a) {
     return s;
 }
 
-struct Pop { std::vector<cell_ptr> cells; std::vector<int> roles; double l_min = 0, r0 = 0, edge_min = 0, edge_max = 0; long faces = 0; std::vector<std::string> classes; };
+struct Pop { std::vector<cell_ptr> cells; std::vector<int> roles; double l_min = 0, r0 = 0, edge_min = 0, edge_max = 0; long faces = 0; std::vector<std::string> classes; bool all_static = false; };
 
 static Pop make_population(Rng& g, int hist, const Sweep& sw, const Args& a) {
     Pop p; const double dt = sw.dt;
@@ -302,6 +303,8 @@ static Pop make_population(Rng& g, int hist, const Sweep& sw, const Args& a) {
     // breathing mode omega = 3 sqrt(K / rho) / r ; omega dt = wdt (the damping, gamma dt / m_node, is set by the caller)
     const double rho = 1e3, wdt = a.getd("wdt", g.uni(0.03, 0.06));
     const double rr = 1.3 * p.r0, K = rho * (wdt / dt) * (wdt / dt) * rr * rr / 9.0;
+    // a fifth of the histories without growth / division / removal: every cell is of a class that never moves (ECM, static)
+    const bool all_static = hist == 0 && g.coin(0.35); p.all_static = all_static;
     // one cell type per cell (thresholds are relative to the cell's own start volume); the role is the printed type id
     for (int k = 0; k < n; k++) {
         Role r = (Role)p.roles[k];
@@ -329,7 +332,7 @@ static Pop make_population(Rng& g, int hist, const Sweep& sw, const Args& a) {
                 ct->initial_pressure_ = s_l * K; ct->min_vol_ = g.uni(0.86, 0.96) * V0; ct->avg_growth_rate_ = -rate * V0 / dt; break; }
         }
         int cls = 0;                      // cell class: only epithelial cells divide
-        if (r == R_PLAIN || r == R_REM0) { int q = g.range(0, 9); cls = q < 5 ? 0 : q == 5 ? 1 : q == 6 ? 2 : q == 7 ? 3 : q == 8 ? 4 : 0; }
+        if (r == R_PLAIN || r == R_REM0) { int q = g.range(0, 9); cls = q < 5 ? 0 : q == 5 ? 1 : q == 6 ? 2 : q == 7 ? 3 : q == 8 ? 4 : 0; if (all_static && r == R_PLAIN) cls = g.coin() ? 1 : 4; }
         else if (r == R_GROW || r == R_SHRINK) { int q = g.range(0, 9); cls = q < 6 ? 0 : q < 8 ? 2 : 3; }
         static const char* CLS[] = {"epithelial", "ecm", "lumen", "nucleus", "static"};
         p.classes.push_back(CLS[cls]);
@@ -529,7 +532,9 @@ static std::string run_case(const Args& a, long i, const std::string& outdir) {
         // the solver is destroyed through its own (non-virtual-base) destructor: leave that to C10, release without delete
         (void)S.release();
     }
+    if (pop.all_static) o.bin("populations_of_cells_that_never_move");
     c.obs.i("iterations", M.iterations).i("files_written", (long)M.files.size()).i("divisions", M.divisions).i("removals", M.removals).i("first_division_it", M.first_division_it).i("first_removal_it", M.first_removal_it).i("remesh_ops", M.remesh_ops).i("cells_end", (long)cells_end).d("t_end", t_end);
+    if (threw && !M.viols.empty()) { c.nontrivial = true; for (auto& v : M.viols) o.viol(v.first, v.second); goto done; }   // stopped by the monitor: its finding stands
     if (threw) { c.v = "skip"; c.msg = "run() ended with an exception: " + what.substr(0, 160); o.bin("skip:run_exception"); goto done; }
     {
         c.nontrivial = true;
